@@ -101,9 +101,9 @@ Definition trim_suffix_dot (s : bytes) : bytes :=
   end.
 Definition contains_dot (s : bytes) : bool := existsb (fun b => Byte.eqb b b_dot) s.
 (* Amount.MinimalString *)
-Definition minimal_string (a : amount) : bytes :=
-  let s := print_amount a in
+Definition minimal_of_text (s : bytes) : bytes :=
   if contains_dot s then trim_suffix_dot (trim_right_zeros s) else s.
+Definition minimal_string (a : amount) : bytes := minimal_of_text (print_amount a).
 
 (* strconv.ParseUint(s, 10, 64) followed by ParseInt's range test, as one option:
    digits only (underscores are accepted by strconv only for base 0), not empty *)
@@ -210,6 +210,8 @@ Definition print_amount_fixed (a : amount) : bytes :=
     let u1 := u / p in
     let u2 := wrapu64 (u - wrapu64 (u1 * p)) in
     (if neg then [b_minus] else []) ++ digits_of u1 ++ [b_dot] ++ pad_left (exp a) (digits_of u2).
+
+Definition minimal_string_fixed (a : amount) : bytes := minimal_of_text (print_amount_fixed a).
 
 Definition has_plus (s : bytes) : bool :=
   match s with b :: _ => Byte.eqb b b_plus | [] => false end.
